@@ -509,7 +509,10 @@ class World:
             if t == "ret":
                 value = specs_const(beh["v"])
             elif t == "seq":
-                value = {"list": list, "tuple": tuple, "gen": iter}[beh["as"]](args)
+                if beh["as"].startswith("lenliar"):
+                    value = specs.LenLiar(args, len(args) + (3 if beh["as"].endswith("+") else -1 if args else 2))
+                else:
+                    value = {"list": list, "tuple": tuple, "gen": iter}[beh["as"]](args)
             elif self.token_mode:
                 value = Token(("call", i))
                 self.tokens[("call", i)] = weakref.ref(value)
@@ -611,6 +614,21 @@ class World:
 
         def tf(plan, node):
             p = plan if kind.startswith("inplace") else plan.copy()
+            if kind.endswith("cycle_edge") or kind.endswith("cycle_new"):
+                # the transformation closes a dependency cycle in the plan that is about to be executed
+                from uberjob.graph import Call
+                edges = [(a, b) for a, b in p.graph.edges() if isinstance(a, Call) and isinstance(b, Call) and a is not b]
+                if kind.endswith("cycle_edge") and edges:
+                    a, b = edges[len(edges) // 2]
+                    p.add_dependency(b, a)
+                    world.tcycle_made = "edge"
+                else:
+                    with p.scope("xfs"):
+                        c1 = p.call(xf)
+                        c2 = p.call(xw, c1)
+                    p.add_dependency(c2, c1)
+                    world.tcycle_made = "new"
+                return p, node
             with p.scope("xfs"):
                 if kind.endswith("add"):
                     p.call(xf)
